@@ -136,11 +136,11 @@ func newC10() pbt.Machine[op10] {
 				}
 			}
 		}
-		t.sum = c.Supply(t.minUnit).BigInt()
 		t.twin, t.twinOf = -1, -1
 		m.toks = append(m.toks, &t)
 	}
 	for i, a := range m.toks {
+		a.sum = c.Supply(a.minUnit).BigInt() // after every issue: the issue fees burn stake
 		for j, b := range m.toks {
 			if i != j && a.minUnit == b.symbol {
 				a.twin, b.twinOf = j, i
@@ -741,12 +741,23 @@ func (m *m10) feeSwap(op op10, tk *tok10, before chain.Sheet, evmBefore string) 
 			return pbt.Failf("C10/feeswap-response", "response says %v, minted %s %s", resp, minted, out.minUnit)
 		}
 		if sig, why := swapValueChecks(offered, burned, minted, ratio, tk.scale, out.scale); sig != "" {
+			if out.twin >= 0 {
+				// the minted denom is also another token's symbol: were the amounts computed with that token's scale?
+				if s2, _ := swapValueChecks(offered, burned, minted, ratio, tk.scale, m.toks[out.twin].scale); s2 == "" {
+					return pbt.Failf("C10/feeswap-target-resolved-by-symbol", "fee swap of %s %s -> %s (scale %d) at ratio %s/10^18 burned %s and minted %s: %s; the amounts fit "+
+						"the scale %d of token %q whose SYMBOL equals the target min unit", offered, tk.minUnit, out.minUnit, out.scale, ratio, burned, minted, why,
+						m.toks[out.twin].scale, m.toks[out.twin].symbol)
+				}
+			}
 			return pbt.Failf(sig, "fee swap of %s %s -> %s at ratio %s/10^18: %s", offered, tk.minUnit, out.minUnit, ratio, why)
 		}
 		tk.sum = new(big.Int).Sub(tk.sum, burned)
 		out.sum = new(big.Int).Add(out.sum, minted)
 		m.okConv++
 		m.cls["feeswap-ok"] = true
+		if out.twin >= 0 {
+			m.cls["feeswap-into-cross-namespace-min-unit"] = true
+		}
 		if ratio.Cmp(one18) != 0 {
 			m.cls["feeswap-ok-ratio!=1"] = true
 		}
@@ -812,7 +823,7 @@ func (m *m10) Classify() (bool, []string) {
 }
 
 const c10Rule = "rapid state machine on the K-driver with the transactional harness EVM: deployERC20 / swapToERC20 / swapFromERC20 / contract swapToNative + " +
-	"PostTxProcessing hook / swapFeeToken (keeper copy WithSwapRegistry, any positive ratio, 5 tokens of scales 6/18/0/8/0 incl. a trace-only bank denom and the native token) / " +
+	"PostTxProcessing hook / swapFeeToken (keeper copy WithSwapRegistry, any positive ratio, 9 tokens of scales 0..18 incl. a trace-only bank denom, the native token and two pairs whose one symbol equals the other's min unit - one pair with both sides deployable, one with a single deployable side; 40 % of the conversions pick a pair token) / " +
 	"owner mint+burn / enable-disable; receivers incl. blocked, new and malformed addresses; injected EVM error, revert, +-1 mis-credit and silent no-op; amounts relative to live " +
 	"balances and by shape up to 2^128; non-trivial = history with a failed conversion after at least one successful conversion; distinct by SHA-256 of the op list"
 
